@@ -409,7 +409,16 @@ class P_cif(StructureParser):
                     # stop after reading the first structure
                     if self.stru is not None:
                         break
-        except (YappsSyntaxError, StarError, ValueError, IndexError, KeyError, TypeError, ZeroDivisionError) as err:
+        except (
+            YappsSyntaxError,
+            StarError,
+            ValueError,
+            IndexError,
+            KeyError,
+            TypeError,
+            AttributeError,
+            ZeroDivisionError,
+        ) as err:
             exc_type, exc_value, exc_traceback = sys.exc_info()
             emsg = str(err).strip()
             e = StructureFormatError(emsg)
